@@ -124,6 +124,37 @@ fn enumerate<V: Full>(b: &BaseBlob, ks: &keys::KeySet, thorough: bool) -> (Vec<F
         }
         out.push(Fault { class: "bit", label: format!("byte {byte} bit {}", bit % 8), paserk: pk::join(&hdr, &nb), opener: b.opener.clone() });
     }
+    // every value of the first byte of each field (encodings with a tag byte: SEC1 points, DER) and of the
+    // byte just before / after each field boundary
+    {
+        let t = V::tag_len().max(32);
+        let mut marks: Vec<usize> = vec![0, body.len() - 1];
+        match b.kind {
+            Kind::PieLocal | Kind::PieSecret => marks.extend([t - 1, t, t + 31, t + 32]),
+            Kind::PwLocal | Kind::PwSecret => marks.extend([poff - 1, poff, poff + plen - 1, poff + plen, V::pbkw_prefix_len() - 1, V::pbkw_prefix_len(), body.len() - t]),
+            Kind::Seal => match V::VER {
+                1 => marks.extend([47, 48, 79, 80, 81]),
+                3 => marks.extend([47, 48, 49, 96, 97]),
+                _ => marks.extend([31, 32, 63, 64]),
+            },
+        }
+        marks.sort();
+        marks.dedup();
+        for m in marks.into_iter().filter(|m| *m < body.len()) {
+            for v in 0..=255u8 {
+                if v == body[m] || (v ^ body[m]).count_ones() == 1 {
+                    continue; // identity and single-bit neighbours are covered above
+                }
+                let mut nb = body.clone();
+                nb[m] = v;
+                if is_pw && m >= poff && m < poff + plen && !params_in_budget(V::VER, &nb[poff..poff + plen]) {
+                    skipped_budget += 1;
+                    continue;
+                }
+                out.push(Fault { class: "byte-value", label: format!("byte {m} = {v:02x}"), paserk: pk::join(&hdr, &nb), opener: b.opener.clone() });
+            }
+        }
+    }
     for n in 0..body.len() {
         out.push(Fault { class: "truncate", label: format!("cut to {n} bytes"), paserk: pk::join(&hdr, &body[..n]), opener: b.opener.clone() });
     }
@@ -209,7 +240,7 @@ fn add<V: Full>(prop: &mut Property, ctx: &Ctx) {
                 format!("{name}/{}", kind.header()),
                 n,
                 format!(
-                    "{variants} base blob(s) (minimum-cost PBKW parameters) x every single-bit flip of every byte (tag, nonce, salt, parameters, epk / RSA c, encrypted key), every truncation, 1-byte extensions, every single-bit flip of the wrapping key / password / recipient key, every other key of the alphabet{}; parameter flips leaving the cost budget are counted and skipped",
+                    "{variants} base blob(s) (minimum-cost PBKW parameters) x every single-bit flip of every byte (tag, nonce, salt, parameters, epk / RSA c, encrypted key), every value of the bytes at the field boundaries (tag bytes of point encodings), every truncation, 1-byte extensions, every single-bit flip of the wrapping key / password / recipient key, every other key of the alphabet{}; parameter flips leaving the cost budget are counted and skipped",
                     if V::VER == 1 && kind == Kind::Seal && !thorough { " (quick: of the 512-byte c the first, last and every 16th byte)" } else { "" }
                 ),
                 move |idx, describe| {
